@@ -380,7 +380,7 @@ def check_uvr(line, meta, hout, dout, stats):
         return [("prop", "impl-crash", "density utilities failed on a valid input: %s" % hout[:80])]
     if not dout.startswith("ok"):
         return [("corr", "model-undefined", "model not defined on a valid input: %s" % dout[:40])]
-    (Lu, Du, Ld, Dd), _ = parse_vecs(hout.split(), 1, 4)
+    (Lu, Du, Ld, Dd, L2, D2), _ = parse_vecs(hout.split(), 1, 6)
     if any(len(v) != b for v in (Lu, Du, Ld, Dd)):
         return [("prop", "batch-size", "batch of %d points gave %s values" % (b, [len(v) for v in (Lu, Du, Ld, Dd)]))]
     dt = dout.split()
@@ -439,6 +439,18 @@ def check_uvr(line, meta, hout, dout, stats):
         tol_ld = nb * logdet_tol(bs, kR) + logdet_tol(k, kM)
         tolU.append(0.5 * (tol_q + tol_ld))
     check_ld_like("uvr", d, b, Lu, Du, Lstar, tolU, probs, stats, "factorised (UVR) density")
+    # the two encodings of the same R against each other (shared block vs the row repeating it)
+    if len(L2) == b and len(D2) == b:
+        stats["both_encodings_compared"] = stats.get("both_encodings_compared", 0) + 1
+        for c in range(b):
+            tt = 2 * tolU[c] + 16 * EPS * abs(Lstar[c])
+            if tt > max(0.05, 1e-6 * abs(Lstar[c])):
+                continue
+            if not (abs(Lu[c] - L2[c]) <= tt):
+                probs.append(("prop", "uvr-shared-vs-full-encoding", "column %d: log-density %.17g with one encoding of R, %.17g with the other (tol %.3g)" % (c, Lu[c], L2[c], tt)))
+            big = max(abs(Du[c]), abs(D2[c]))
+            if not (abs(Du[c] - D2[c]) <= big * math.expm1(min(50.0, tt)) + TINY):
+                probs.append(("prop", "uvr-shared-vs-full-encoding-density", "column %d: density %.17g with one encoding of R, %.17g with the other" % (c, Du[c], D2[c])))
     # the two implementations against each other
     for c in range(b):
         tt = tolU[c] + tolD[c] + 16 * EPS * abs(Lstar[c])
